@@ -168,6 +168,12 @@ func (p *provider) CreateScope(ctx context.Context) (Scope, error) {
 
 	// Track scope
 	p.scopesMu.Lock()
+	if p.scopes == nil {
+		// Close ran while the scope was being created
+		p.scopesMu.Unlock()
+		_ = s.Close()
+		return nil, ErrProviderDisposed
+	}
 	p.scopes[s] = struct{}{}
 	p.scopesMu.Unlock()
 
@@ -215,7 +221,9 @@ func (p *provider) Close() error {
 			errors = append(errors, fmt.Errorf("root scope: %w", err))
 		}
 
-		p.rootScope = nil
+		// The closed root scope stays referenced: provider.Get/GetKeyed/GetGroup
+		// read this field without synchronisation, and a closed scope already
+		// refuses every use.
 	}
 
 	// Dispose all singleton disposables
